@@ -27,6 +27,8 @@ var c15Urls = map[string]string{
 	"erc20types.MsgToggleTokenConversion":     "/fx.erc20.v1.MsgToggleTokenConversion",
 	"erc20types.MsgUpdateDenomAlias":          "/fx.erc20.v1.MsgUpdateDenomAlias",
 	"evmtypes.MsgCallContract":                "/fx.evm.v1.MsgCallContract",
+	"govv1.MsgExecLegacyContent":              "/cosmos.gov.v1.MsgExecLegacyContent",
+	"v1.MsgExecLegacyContent":                 "/cosmos.gov.v1.MsgExecLegacyContent",
 }
 
 func c15Find(n ast.Node, pred func(ast.Node) bool) ast.Node {
@@ -169,8 +171,10 @@ func extractC15(c *ctxT) {
 	eb := c.findFunc(adir, "", "EndBlocker")
 	convExpr, convCustom := "<not found>", false
 	settleGuard, settleOk := "<not found>", false
+	settleFound, settleBefore, settleViaHelper := false, false, false
 	inactiveOk := false
 	execCache := false
+	execErrVisible := false
 	if eb != nil {
 		// the `case proposal.Expedited:` clause
 		cc := c15Find(eb.Body, func(n ast.Node) bool {
@@ -221,6 +225,68 @@ func extractC15(c *ctxT) {
 			elseRefund := inner.Else != nil && c15Find(inner.Else, func(n ast.Node) bool { _, m, ce := c.callSel(n); return ce != nil && m == "RefundAndDeleteDeposits" }) != nil
 			settleOk = settleGuard == "!(proposal.Expedited && !passes)" && thenBurn && elseRefund
 		}
+		// … and WHERE it stands: the guard reads proposal.Expedited, which the `case proposal.Expedited:` clause of the
+		// outcome switch clears — the settlement (inline, or through a helper of this package with the same guard) must
+		// come before that switch
+		if cl := c15Find(eb.Body, func(n ast.Node) bool {
+			fl, ok := n.(*ast.FuncLit)
+			return ok && c15Find(fl.Body, func(n ast.Node) bool { _, m, ce := c.callSel(n); return ce != nil && m == "Tally" }) != nil
+		}); cl != nil {
+			isSettleHelper := func(name string) bool {
+				fd := c.findFunc(adir, "", name)
+				if fd == nil || fd.Body == nil {
+					return false
+				}
+				guard := c15Find(fd.Body, func(n ast.Node) bool {
+					is, ok := n.(*ast.IfStmt)
+					return ok && squash(c.src(is.Cond)) == "proposal.Expedited && !passes" && squash(c.src(is.Body)) == "{ return nil }"
+				}) != nil
+				burn := c15Find(fd.Body, func(n ast.Node) bool {
+					is, ok := n.(*ast.IfStmt)
+					return ok && c.src(is.Cond) == "burnDeposits" &&
+						c15Find(is.Body, func(n ast.Node) bool { _, m, ce := c.callSel(n); return ce != nil && m == "DeleteAndBurnDeposits" }) != nil
+				}) != nil
+				refund := c15Find(fd.Body, func(n ast.Node) bool { _, m, ce := c.callSel(n); return ce != nil && m == "RefundAndDeleteDeposits" }) != nil
+				return guard && burn && refund
+			}
+			settleIdx, switchIdx := -1, -1
+			for i, st := range cl.(*ast.FuncLit).Body.List {
+				if sw, ok := st.(*ast.SwitchStmt); ok && sw.Tag == nil && c15Find(sw.Body, func(n ast.Node) bool {
+					x, ok := n.(*ast.CaseClause)
+					return ok && len(x.List) == 1 && c.src(x.List[0]) == "passes"
+				}) != nil {
+					switchIdx = i
+					continue
+				}
+				if is, ok := st.(*ast.IfStmt); ok && squash(c.src(is.Cond)) == "!(proposal.Expedited && !passes)" {
+					if inner, ok := firstIf(is.Body); ok && c.src(inner.Cond) == "burnDeposits" && settleIdx < 0 {
+						settleIdx = i
+						continue
+					}
+				}
+				if c15Find(st, func(n ast.Node) bool {
+					ce, ok := n.(*ast.CallExpr)
+					if !ok {
+						return false
+					}
+					id, ok := ce.Fun.(*ast.Ident)
+					if !ok || !isSettleHelper(id.Name) {
+						return false
+					}
+					args := []string{}
+					for _, a := range ce.Args {
+						args = append(args, c.src(a))
+					}
+					j := strings.Join(args, ",")
+					return strings.Contains(j, "proposal") && strings.Contains(j, "passes") && strings.Contains(j, "burnDeposits")
+				}) != nil && settleIdx < 0 {
+					settleIdx = i
+					settleViaHelper = true
+				}
+			}
+			settleFound = settleIdx >= 0 && switchIdx >= 0
+			settleBefore = settleFound && settleIdx < switchIdx
+		}
 		// inactive queue: refund unless BurnProposalDepositPrevote
 		for _, n := range c15All(eb.Body, func(n ast.Node) bool { _, ok := n.(*ast.IfStmt); return ok }) {
 			is := n.(*ast.IfStmt)
@@ -255,13 +321,28 @@ func extractC15(c *ctxT) {
 			}) != nil
 		}) != nil
 		execCache = usesCache && len(writes) == 1 && guarded
+		// the error tested after the loop is the handler's: the loop ASSIGNS (`res, err = …`) the `err` of the enclosing
+		// block; a `:=` would declare a new one that the test after the loop never sees
+		for _, n := range c15All(passCase, func(n ast.Node) bool { _, ok := n.(*ast.AssignStmt); return ok }) {
+			as := n.(*ast.AssignStmt)
+			if len(as.Rhs) != 1 || len(as.Lhs) != 2 {
+				continue
+			}
+			if ce, ok := as.Rhs[0].(*ast.CallExpr); ok && c.src(ce.Fun) == "safeExecuteHandler" {
+				execErrVisible = as.Tok == token.ASSIGN && c.src(as.Lhs[1]) == "err"
+			}
+		}
 	}
 	str("conversionPeriodExpr", "x/gov/abci.go, `case proposal.Expedited:` — the duration added to VotingStartTime for the new VotingEndTime", convExpr)
 	boolean("conversionUsesCustomPeriod", "that duration is keeper.GetCustomMsgVotingPeriod(ctx, params.VotingPeriod, proposal) (per-type period, global as default)", convCustom)
 	str("settleGuard", "guard of the refund/burn at the end of the voting period", settleGuard)
-	boolean("settleShapeOk", "`if !(proposal.Expedited && !passes) { if burnDeposits { DeleteAndBurnDeposits } else { RefundAndDeleteDeposits } }`", settleOk)
+	boolean("settleInlineShape", "`if !(proposal.Expedited && !passes) { if burnDeposits { DeleteAndBurnDeposits } else { RefundAndDeleteDeposits } }` occurs in EndBlocker", settleOk)
+	boolean("settleViaHelper", "the settlement is a call of a helper of the package with the guard `if proposal.Expedited && !passes { return nil }`", settleViaHelper)
+	boolean("settleShapeOk", "the settlement (that `if`, or such a helper call) is a top-level statement of the active-queue walk BEFORE the outcome switch (which clears proposal.Expedited when an expedited proposal is converted)", (settleOk || settleViaHelper) && settleBefore)
+	boolean("settleAfterOutcome", "the settlement stands AFTER the outcome switch: its guard sees the already converted proposal", (settleOk || settleViaHelper) && settleFound && !settleBefore)
 	boolean("inactiveSettleShapeOk", "`if !params.BurnProposalDepositPrevote { RefundAndDeleteDeposits } else { DeleteAndBurnDeposits }`", inactiveOk)
 	boolean("execInCacheCtx", "proposal messages run on cacheCtx and writeCache() is called once, under `if err == nil`", execCache)
+	boolean("execErrVisible", "the loop assigns the handler's error to the `err` that is tested after the loop (`res, err = safeExecuteHandler(…)`, not `:=`)", execErrVisible)
 
 	// ---------------------------------------------------------------- tally.go
 	tl := c.findFunc(kdir, "Keeper", "Tally")
@@ -306,15 +387,106 @@ func extractC15(c *ctxT) {
 	str("tallyQuorumExpr", "x/gov/keeper/tally.go — source of the quorum that percentVoting is compared with", quorumExpr)
 	boolean("tallyQuorumByType", "it is keeper.GetCustomMsgQuorum(ctx, params.Quorum, proposal)", quorumByType)
 	str("tallyQuorumCmp", "comparison: the proposal fails for lack of quorum when percentVoting.<cmp>(quorum)", quorumCmp)
+	c.c15Tally(b, tl, str, boolean)
 
 	// ---------------------------------------------------------------- proposal.go
+	// which type url a custom-parameter lookup uses: the expression bound to msgType, resolved through
+	// getProposalMsgType / types.ExtractMsgTypeURL to one of
+	//   "first-message-url"      the TypeUrl of the proposal's first message
+	//   "unwrap-legacy-content"  … except that a MsgExecLegacyContent is replaced by the type url of its wrapped content
+	//   "any-wrapper-url"        sdk.MsgTypeURL of the *codectypes.Any wrapper ("/google.protobuf.Any")
+	legacyType := "<not found>"
+	extractKind := func() string { // shape of types.ExtractMsgTypeURL
+		fd := c.findFunc(tdir, "", "ExtractMsgTypeURL")
+		if fd == nil || fd.Body == nil {
+			return "other: types.ExtractMsgTypeURL not found"
+		}
+		unwraps := c15Find(fd.Body, func(n ast.Node) bool {
+			is, ok := n.(*ast.IfStmt)
+			if !ok {
+				return false
+			}
+			ce, ok := is.Cond.(*ast.CallExpr)
+			if !ok || len(ce.Args) != 2 || c.src(ce.Args[0]) != "msg.TypeUrl" {
+				return false
+			}
+			ty := c.msgTypeOfURLExpr(ce.Args[1])
+			if !strings.HasSuffix(ty, "MsgExecLegacyContent") {
+				return false
+			}
+			legacyType = ty
+			return c15Find(is.Body, func(n ast.Node) bool {
+				rs, ok := n.(*ast.ReturnStmt)
+				return ok && len(rs.Results) == 1 && c.src(rs.Results[0]) == "content.TypeUrl"
+			}) != nil
+		}) != nil
+		last := squash(c.src(fd.Body.List[len(fd.Body.List)-1]))
+		switch {
+		case unwraps && last == "return msg.TypeUrl":
+			return "unwrap-legacy-content"
+		case !unwraps && last == "return msg.TypeUrl":
+			return "first-message-url"
+		}
+		return "other: " + last
+	}
+	helperKind := func() string { // shape of getProposalMsgType
+		fd := c.findFunc(kdir, "", "getProposalMsgType")
+		if fd == nil || fd.Body == nil {
+			return "other: getProposalMsgType not found"
+		}
+		if n := c15Find(fd.Body, func(n ast.Node) bool { _, ok := n.(*ast.RangeStmt); return ok }); n != nil {
+			rs := n.(*ast.RangeStmt)
+			if len(rs.Body.List) == 1 && c.src(rs.X) == "message" && rs.Value != nil {
+				if ret, ok := rs.Body.List[0].(*ast.ReturnStmt); ok && len(ret.Results) == 1 {
+					switch squash(c.src(ret.Results[0])) {
+					case c.src(rs.Value) + ".TypeUrl":
+						return "first-message-url"
+					case "sdk.MsgTypeURL(" + c.src(rs.Value) + ")":
+						return "any-wrapper-url"
+					}
+					return "other: " + squash(c.src(ret.Results[0]))
+				}
+			}
+			return "other: " + squash(c.src(rs))
+		}
+		if len(fd.Body.List) == 1 {
+			src := squash(c.src(fd.Body.List[0]))
+			if src == "return types.ExtractMsgTypeURL(proposal.Messages)" || src == "return types.ExtractMsgTypeURL(proposal.GetMessages())" {
+				return extractKind()
+			}
+			return "other: " + src
+		}
+		return "other"
+	}
+	lookupKind := func(fn string) string {
+		fd := c.findFunc(kdir, "Keeper", fn)
+		if fd == nil || fd.Body == nil || len(fd.Body.List) == 0 {
+			return "other: not found"
+		}
+		as, ok := fd.Body.List[0].(*ast.AssignStmt)
+		if !ok || len(as.Lhs) != 1 || len(as.Rhs) != 1 || c.src(as.Lhs[0]) != "msgType" {
+			return "other: " + squash(c.src(fd.Body.List[0]))
+		}
+		switch squash(c.src(as.Rhs[0])) {
+		case "getProposalMsgType(proposal)":
+			return helperKind()
+		case "types.ExtractMsgTypeURL(proposal.GetMessages())", "types.ExtractMsgTypeURL(proposal.Messages)":
+			return extractKind()
+		}
+		return "other: " + squash(c.src(as.Rhs[0]))
+	}
+	str("periodLookupType", "GetCustomMsgVotingPeriod looks the custom parameters up under: first-message-url | unwrap-legacy-content (a MsgExecLegacyContent is replaced by the type url of the content it wraps) | any-wrapper-url", lookupKind("GetCustomMsgVotingPeriod"))
+	str("quorumLookupType", "GetCustomMsgQuorum looks the custom parameters up under", lookupKind("GetCustomMsgQuorum"))
+	_ = extractKind()
+	str("legacyMsgType", "the Go type types.ExtractMsgTypeURL unwraps", legacyType)
+	str("legacyUrl", "its proto type url", c15Urls[legacyType])
 	lookupShape := func(fn, field, def string) bool {
 		fd := c.findFunc(kdir, "Keeper", fn)
 		if fd == nil || fd.Body == nil || len(fd.Body.List) != 3 {
 			return false
 		}
 		as, ok := fd.Body.List[0].(*ast.AssignStmt)
-		if !ok || squash(c.src(as)) != "msgType := getProposalMsgType(proposal)" {
+		if !ok || len(as.Lhs) != 1 || c.src(as.Lhs[0]) != "msgType" {
 			return false
 		}
 		is, ok := fd.Body.List[1].(*ast.IfStmt)
